@@ -34,6 +34,16 @@ Lemma way_polygon_RT_total (nodes : list Z) (ts : tags) :
   way_polygon RT nodes ts <> IndexPanic /\ way_polygon RT nodes ts <> NoFuel.
 Proof. rewrite way_polygon_RT_bool. split; discriminate. Qed.
 
+(* full way nodes *)
+Lemma way_polygon_wn_RT_spec (ns : list waynode) (ts : tags) :
+  NoDup (keys ts) ->
+  exists b, way_polygon_wn RT ns ts = Val b /\ (b = true <-> spec_polygon (map wid ns) ts).
+Proof. rewrite way_polygon_wn_ids. apply way_polygon_RT_spec. Qed.
+
+Lemma way_polygon_wn_RT_bool (ns : list waynode) (ts : tags) :
+  way_polygon_wn RT ns ts = Val (spec_polygonb (map wid ns) (fun k => find k ts)).
+Proof. rewrite way_polygon_wn_ids. apply way_polygon_RT_bool. Qed.
+
 Lemma spec_areab_ext (S : list srule) (val val' : string -> string) :
   (forall k, val k = val' k) -> spec_areab S val = spec_areab S val'.
 Proof.
